@@ -9,14 +9,22 @@ import (
 	"strings"
 	"time"
 
+	"github.com/vmware/go-ipfix/pkg/collector"
 	"github.com/vmware/go-ipfix/pkg/entities"
+	"github.com/vmware/go-ipfix/pkg/exporter"
 	"github.com/vmware/go-ipfix/pkg/intermediate"
 	"github.com/vmware/go-ipfix/pkg/registry"
 )
 
 // engine "agg": the aggregation process under a virtual clock (properties C05, C06, C07)
 //   agg new <activeMs> <inactiveMs>
-//   agg rec <key> <flowType> <corr> <start> <end> <reason> <tcpStateHex> <stats>   -> ok | err
+//   agg rec <key> <flowType> <corr> <start> <end> <reason> <tcpStateHex> <stats> [p<n>]   -> ok | err
+//   agg msg <rec_1> + <rec_2> + ... + <rec_k> [p<n>]                               -> ok | err
+//       (<rec_i> = the arguments of `agg rec` without p<n>; keys of one address family.) The k records travel the
+//       production path: a template set and ONE data set holding all of them are encoded by the library's exporter
+//       code, decoded by a collecting process (decodePacket / decodeDataSet), and the decoded data message is what
+//       AggregateMsgByFlowKey gets - so the aggregation appends its statistics elements to the element slices
+//       the collector allocated. `agg rec` hands over one hand-built record instead.
 //   agg adv <ms>
 //   agg scan <failkeys|-> <reset 0|1>      -> cb <k>=<dump>;... <ok|fail>
 //   agg dump                               -> <k>=<dump>;...
@@ -29,7 +37,15 @@ var (
 	aggProc *intermediate.AggregationProcess
 	aggNow  int64
 	aggBase = time.Unix(1700000000, 0)
+	// the collecting process of the session (created by the first `agg msg` after `agg new`) and the
+	// sequence number of its exporter
+	aggCP  *collector.CollectingProcess
+	aggSeq uint32
 )
+
+// the extra capacity the collector reserves per record is a hint only; the aggregation adds far more elements
+// than this, so both the append-in-place and the append-that-grows path are taken
+const aggNumExtraElements = 2
 
 var corrFields = []string{"sourcePodName", "sourcePodNamespace", "sourceNodeName", "destinationPodName", "destinationPodNamespace",
 	"destinationNodeName", "destinationClusterIPv4", "destinationServicePort", "ingressNetworkPolicyRuleAction",
@@ -79,32 +95,33 @@ func regIE(name string) *entities.InfoElement {
 	panic("no element " + name)
 }
 
-func aggRecord(a []string) (entities.Record, error) {
+// aggElems builds the elements of one record (the 8 arguments of `agg rec`); v6 = the key is an IPv6 5-tuple
+func aggElems(a []string) (out []entities.InfoElementWithValue, v6 bool, err error) {
 	k, err := strconv.Atoi(a[0])
 	fk, ok := aggKeys[k]
 	if err != nil || !ok {
-		return nil, fmt.Errorf("bad key")
+		return nil, false, fmt.Errorf("bad key")
 	}
 	ft, e0 := strconv.ParseUint(a[1], 10, 8)
 	corr := strings.Split(a[2], ",")
 	if len(corr) != len(corrFields) {
-		return nil, fmt.Errorf("bad corr")
+		return nil, false, fmt.Errorf("bad corr")
 	}
 	start, e1 := strconv.ParseUint(a[3], 10, 32)
 	end, e2 := strconv.ParseUint(a[4], 10, 32)
 	reason, e3 := strconv.ParseUint(a[5], 10, 8)
 	for _, e := range []error{e0, e1, e2, e3} {
 		if e != nil {
-			return nil, e
+			return nil, false, e
 		}
 	}
 	tcp, err := unhex(a[6])
 	if err != nil {
-		return nil, err
+		return nil, false, err
 	}
 	stats := strings.Split(a[7], ",")
 	if len(stats) != len(statsElems) {
-		return nil, fmt.Errorf("bad stats")
+		return nil, false, fmt.Errorf("bad stats")
 	}
 	var es []entities.InfoElementWithValue
 	es = append(es, entities.NewUnsigned16InfoElement(regIE("sourceTransportPort"), fk.sport))
@@ -122,7 +139,7 @@ func aggRecord(a []string) (entities.Record, error) {
 		ie := regIE(name)
 		e, err := mkElem(ie, corr[i])
 		if err != nil {
-			return nil, err
+			return nil, false, err
 		}
 		es = append(es, e)
 	}
@@ -133,9 +150,17 @@ func aggRecord(a []string) (entities.Record, error) {
 	for i, name := range statsElems {
 		v, err := strconv.ParseUint(stats[i], 10, 64)
 		if err != nil {
-			return nil, err
+			return nil, false, err
 		}
 		es = append(es, entities.NewUnsigned64InfoElement(regIE(name), v))
+	}
+	return es, fk.v6, nil
+}
+
+func aggRecord(a []string) (entities.Record, error) {
+	es, _, err := aggElems(a)
+	if err != nil {
+		return nil, err
 	}
 	set := entities.NewSet(true)
 	set.PrepareSet(entities.Data, 256)
@@ -195,6 +220,106 @@ func aggDump(rec *intermediate.AggregationFlowRecord) string {
 		u64s(r, []string{"throughputFromDestinationNode", "reverseThroughputFromDestinationNode"}), b(ready), retries, b(filled))
 }
 
+// aggMsg: `agg msg <rec_1> + ... + <rec_k> [p<n>]`, see the head of the file
+func aggMsg(a []string) string {
+	perm := int64(-1)
+	if n := len(a); n > 0 && strings.HasPrefix(a[n-1], "p") {
+		v, err := strconv.ParseInt(a[n-1][1:], 10, 64)
+		if err != nil || v < 0 {
+			return "bad-op"
+		}
+		perm = v
+		a = a[:n-1]
+	}
+	var recs [][]entities.InfoElementWithValue
+	family := false
+	for len(a) > 0 {
+		if len(a) < 8 || (len(a) > 8 && a[8] != "+") || len(a) == 9 {
+			return "bad-op"
+		}
+		es, v6, err := aggElems(a[:8])
+		if err != nil {
+			return "bad-op"
+		}
+		if len(recs) > 0 && v6 != family {
+			return "bad-op" // the records of a data set share one template
+		}
+		family = v6
+		if perm >= 0 {
+			// one element order for the whole message (the same seed gives every record the same permutation)
+			rand.New(rand.NewSource(perm)).Shuffle(len(es), func(i, j int) { es[i], es[j] = es[j], es[i] })
+		}
+		recs = append(recs, es)
+		if len(a) > 8 {
+			a = a[9:]
+		} else {
+			a = nil
+		}
+	}
+	if len(recs) == 0 {
+		return "bad-op"
+	}
+	// exporter side: the template (sent anew before every message; the collector replaces the stored one) and
+	// one data set with all the records
+	const tid, dom = 256, 1
+	tset := entities.NewSet(false)
+	if err := tset.PrepareSet(entities.Template, tid); err != nil {
+		return "bad-op"
+	}
+	var tes []entities.InfoElementWithValue
+	for _, e := range recs[0] {
+		te, err := entities.DecodeAndCreateInfoElementWithValue(e.GetInfoElement(), nil) // a template's elements carry no value
+		if err != nil {
+			return "bad-op"
+		}
+		tes = append(tes, te)
+	}
+	if err := tset.AddRecord(tes, tid); err != nil {
+		return "bad-op"
+	}
+	tbytes, err := exporter.CreateIPFIXMsg(tset, dom, aggSeq, fixedTime)
+	if err != nil {
+		return "bad-op"
+	}
+	dset := entities.NewSet(false)
+	if err := dset.PrepareSet(entities.Data, tid); err != nil {
+		return "bad-op"
+	}
+	for _, es := range recs {
+		if err := dset.AddRecord(es, tid); err != nil {
+			return "bad-op"
+		}
+	}
+	dbytes, err := exporter.CreateIPFIXMsg(dset, dom, aggSeq, fixedTime)
+	if err != nil {
+		return "bad-op"
+	}
+	aggSeq += uint32(len(recs))
+	// collector side
+	if aggCP == nil {
+		cp, err := collector.VerifNewCollector(collector.CollectorInput{Protocol: "tcp", MaxBufferSize: 65535,
+			NumExtraElements: aggNumExtraElements}, nil)
+		if err != nil {
+			return "bad-op"
+		}
+		aggCP = cp
+	}
+	if _, err := aggCP.VerifDecodePacket(tbytes, "127.0.0.1:4739"); err != nil {
+		return "err"
+	}
+	msg, err := aggCP.VerifDecodePacket(dbytes, "127.0.0.1:4739")
+	if err != nil {
+		return "err"
+	}
+	if n := len(msg.GetSet().GetRecords()); n != len(recs) {
+		return fmt.Sprintf("err decoded-%d-records", n)
+	}
+	if err := aggProc.AggregateMsgByFlowKey(msg); err != nil {
+		return "err"
+	}
+	return "ok"
+}
+
 func engAgg(a []string) string {
 	if len(a) == 0 {
 		return "bad-op"
@@ -229,6 +354,11 @@ func engAgg(a []string) string {
 			return "err"
 		}
 		aggProc = ap
+		if aggCP != nil {
+			aggCP.CloseMsgChan() // ends the goroutine which drains the messages of the previous session's collector
+			aggCP = nil
+		}
+		aggSeq = 0
 		return "ok"
 	}
 	if aggProc == nil {
@@ -276,6 +406,8 @@ func engAgg(a []string) string {
 			return "err"
 		}
 		return "ok"
+	case "msg":
+		return aggMsg(a[1:])
 	case "adv":
 		d, err := strconv.Atoi(a[1])
 		if err != nil || d < 0 {
